@@ -1,12 +1,12 @@
-\* C27 quick: expressions (atoms + one constructor level), statements x contexts, definition
+\* C27: expressions (atoms + one constructor level), statements x contexts, definition
 \* defects, token mutations of the base programs, Markdown structure, nesting
 SPECIFICATION Spec
 CONSTANTS
   Families = {"expr", "stmt", "defs", "mut", "doc", "nest"}
   GrowDepth = 0
   Stride = 1
-  MutStride = 3
-  DocEols = {"lf"}
-  DocBefores = {"none", "wide"}
+  MutStride = 1
+  DocEols = {"lf", "crlf"}
+  DocBefores = {"none", "ascii", "wide"}
 INVARIANTS WellFormed PlacementTotal Emit
 CHECK_DEADLOCK FALSE
